@@ -53,6 +53,20 @@ def gen_content(rng, max_images=8, unique=True):
         for _ in range(ncells):
             K["cells"].append((pick(rng, variants), pick(rng, pools.ARCHES), i))
     K["cells"] = sorted(set(K["cells"]))
+    # distinct images may legitimately share a PATH as long as they never meet in one cell (the same file
+    # described under two variants with, say, another subvariant)
+    cells_of = {}
+    for v, a, i in K["cells"]:
+        cells_of.setdefault(i, set()).add((v, a))
+    for j in range(1, len(K["imgs"])):
+        if rng.random() < 0.25:
+            i = rng.randrange(j)
+            if not (cells_of.get(i, set()) & cells_of.get(j, set())):
+                # keep "distinct paths per cell": nobody already sharing this path may sit in one of j's cells
+                clash = any(K["imgs"][k]["path"] == K["imgs"][i]["path"] and (cells_of.get(k, set()) & cells_of.get(j, set()))
+                            for k in range(len(K["imgs"])) if k != j)
+                if not clash:
+                    K["imgs"][j]["path"] = K["imgs"][i]["path"]
     return K
 
 
